@@ -63,7 +63,7 @@ def layout_box_backgrounds(page, box, get_image_from_uri, layout_children=True,
         else:
             box.mask_border_image = value
 
-    if style['visibility'] == 'hidden':
+    if style['visibility'] != 'visible':
         images = []
         color = parse_color('transparent')
     else:
